@@ -1138,6 +1138,16 @@ func (c *BytecodeCompiler) prepLocals() {
 		currentValue := c.bytecode.Values[id].MustSmallInt()
 		c.bytecode.Values[id] = (currentValue + value.SmallInt(len(newInstructions))).ToValue()
 	}
+
+	// call sites of this function that are going to be patched later
+	// have been recorded with their old offsets
+	if c.globalData != nil {
+		for _, call := range c.globalData.callsToOptimise.Slice {
+			if call.bytecode == c.bytecode {
+				call.bytecodeOffset += len(newInstructions)
+			}
+		}
+	}
 }
 
 func (c *BytecodeCompiler) initLoopJumpSet(label string, returnsValFromLastIteration bool) {
